@@ -3,7 +3,7 @@ MultiPaxosNode, FlexiblePaxosNode, MembershipProtocol, LeaderElection x strategi
 Nodes talk through a real Network whose links have latency cfg.L."""
 from __future__ import annotations
 
-from props.c07_core import Drv, Instant, P, R
+from props.c07_core import Drv, Instant, P, PI, R
 
 from happysimulator.components.consensus import (BullyStrategy, DistributedLock, FlexiblePaxosNode, KVStateMachine,
                                                  LeaderElection, MembershipProtocol, MultiPaxosNode, PaxosNode,
@@ -152,8 +152,10 @@ class RaftDrv(Drv):
 
     def build(self, cfg):
         self.net = Network(name="net")
+        election, heartbeat = PI(1.0, 0.5)
         self.nodes = [RaftNode(name=f"raft-{j}", network=self.net, state_machine=KVStateMachine(),
-                               election_timeout_min=P(1.0), election_timeout_max=P(2.0), heartbeat_interval=P(0.5))
+                               election_timeout_min=election, election_timeout_max=2 * election,
+                               heartbeat_interval=heartbeat)
                       for j in range(3)]
         for n in self.nodes:
             n.set_peers(self.nodes)
@@ -232,8 +234,9 @@ class MultiPaxosDrv(_LogPaxosDrv):
     covers = ("MultiPaxosNode",)
 
     def make(self, j):
+        lease, heartbeat = PI(2.0, 0.5)
         return MultiPaxosNode(name=f"mp-{j}", network=self.net, state_machine=KVStateMachine(),
-                              leader_lease_timeout=P(2.0), heartbeat_interval=P(0.5))
+                              leader_lease_timeout=lease, heartbeat_interval=heartbeat)
 
 
 class FlexiblePaxosDrv(_LogPaxosDrv):
@@ -254,7 +257,8 @@ class MembershipDrv(Drv):
 
     def build(self, cfg):
         self.net = Network(name="net")
-        self.ms = [MembershipProtocol(name=f"m{j}", network=self.net, probe_interval=P(0.5), suspicion_timeout=P(1.0),
+        suspicion, probe = PI(1.0, 0.5)
+        self.ms = [MembershipProtocol(name=f"m{j}", network=self.net, probe_interval=probe, suspicion_timeout=suspicion,
                                       indirect_probe_count=1, phi_threshold=2.0) for j in range(3)]
         for a in self.ms:
             for b in self.ms:
@@ -288,8 +292,9 @@ class _ElectionDrv(Drv):
 
     def build(self, cfg):
         self.net = Network(name="net")
-        self.es = [LeaderElection(name=f"e{j}", network=self.net, strategy=self.strategy(), election_timeout=P(1.0),
-                                  heartbeat_interval=P(0.5)) for j in range(3)]
+        timeout, heartbeat = PI(1.0, 0.5)
+        self.es = [LeaderElection(name=f"e{j}", network=self.net, strategy=self.strategy(), election_timeout=timeout,
+                                  heartbeat_interval=heartbeat) for j in range(3)]
         for a in self.es:
             for b in self.es:
                 a.add_member(b)
